@@ -333,11 +333,12 @@ def assignPartitions (ms : List (Nat × Member)) (tmeta : List (Nat × List Nat)
 inductive Op where
   /-- JoinGroup: `proto = none` is an empty `Protocols` array; `some (name, topics)` the first protocol -/
   | join (g mid : Nat) (session rebalance : Int) (ptype : Nat) (proto : Option (Nat × List Nat)) (newKey : Nat)
-  | sync (g mid gen : Nat)
-  | heartbeat (g mid gen : Nat)
+  /-- the generation of a request is the client's int32: it may be negative (−1 = "no generation") -/
+  | sync (g mid : Nat) (gen : Int)
+  | heartbeat (g mid : Nat) (gen : Int)
   | leave (g mid : Nat)
   /-- OffsetCommit: entries (topic, partition, offset, metadata) -/
-  | commit (g mid gen : Nat) (parts : List (Nat × Int × Int × Nat))
+  | commit (g mid : Nat) (gen : Int) (parts : List (Nat × Int × Int × Nat))
   | fetch (g : Nat) (parts : List (Nat × Int))
   | tick (d : Nat)
   | cleanup
@@ -451,12 +452,12 @@ def syncFinish (v : Variant) (s : State) (g : Nat) (st : Group) (mid : Nat) : St
     (p.1, .sync (if p.2 then NONE else UNKNOWN_SERVER_ERROR) (asgOf st mid))
 
 /-- `SyncGroup`. -/
-def sync (v : Variant) (s : State) (g mid gen : Nat) : State × Reply :=
+def sync (v : Variant) (s : State) (g mid : Nat) (gen : Int) : State × Reply :=
   match loadGroup v s g with
   | none => (clearFetchGroup s, .goErr)
   | some (s, none) => (s, .sync UNKNOWN_MEMBER_ID [])
   | some (s, some st) =>
-    if gen ≠ st.gen then (s, .sync ILLEGAL_GENERATION [])
+    if gen ≠ (st.gen : Int) then (s, .sync ILLEGAL_GENERATION [])
     else if (lookup st.members mid).isNone then (s, .sync UNKNOWN_MEMBER_ID [])
     else if st.phase = .preparing then (s, .sync REBALANCE_IN_PROGRESS [])
     else if st.phase = .completing ∧ st.asg.isEmpty then
@@ -465,7 +466,7 @@ def sync (v : Variant) (s : State) (g mid gen : Nat) : State × Reply :=
     else syncFinish v s g st mid
 
 /-- `Heartbeat`. -/
-def heartbeat (v : Variant) (s : State) (g mid gen : Nat) : State × Reply :=
+def heartbeat (v : Variant) (s : State) (g mid : Nat) (gen : Int) : State × Reply :=
   match loadGroup v s g with
   | none => (clearFetchGroup s, .code UNKNOWN_SERVER_ERROR)
   | some (s, none) => (s, .code UNKNOWN_MEMBER_ID)
@@ -473,7 +474,7 @@ def heartbeat (v : Variant) (s : State) (g mid gen : Nat) : State × Reply :=
     match lookup st.members mid with
     | none => (s, .code UNKNOWN_MEMBER_ID)
     | some m =>
-      if gen ≠ st.gen then (s, .code ILLEGAL_GENERATION)
+      if gen ≠ (st.gen : Int) then (s, .code ILLEGAL_GENERATION)
       else if v.c43Old ∧ st.phase ≠ .stable then (s, .code REBALANCE_IN_PROGRESS)
       else
         let st' : Group := { st with members := insert st.members mid { m with lastHb := s.clock } }
@@ -527,16 +528,16 @@ def commitWrites (s : State) (g : Nat) : List (Nat × Int × Int × Nat) → Sta
       (s', (t, p, NONE) :: r)
 
 /-- the check of `OffsetCommit` -/
-def commitCheck (st : Option Group) (mid gen : Nat) : Int :=
+def commitCheck (st : Option Group) (mid : Nat) (gen : Int) : Int :=
   match st with
   | none => UNKNOWN_MEMBER_ID
   | some st =>
     if (lookup st.members mid).isNone then UNKNOWN_MEMBER_ID
-    else if gen ≠ st.gen then ILLEGAL_GENERATION
+    else if gen ≠ (st.gen : Int) then ILLEGAL_GENERATION
     else NONE
 
 /-- `OffsetCommit` (check and writes in one critical section after the fix). -/
-def commit (v : Variant) (s : State) (g mid gen : Nat) (parts : List (Nat × Int × Int × Nat)) : State × Reply :=
+def commit (v : Variant) (s : State) (g mid : Nat) (gen : Int) (parts : List (Nat × Int × Int × Nat)) : State × Reply :=
   match loadGroup v s g with
   | none => (clearFetchGroup s, .goErr)
   | some (s, st) =>
@@ -617,7 +618,7 @@ def stepV (v : Variant) (s : State) : Op → State × Reply
 After the fix the commit holds the lock, so `other` waits: commit, then other.  Before the fix
 (`c13Old`) the check has released the lock: check, other, writes.  The `Bool` tells whether
 `other` ran between check and writes. -/
-def raceV (v : Variant) (s : State) (g mid gen : Nat) (parts : List (Nat × Int × Int × Nat)) (other : Op) :
+def raceV (v : Variant) (s : State) (g mid : Nat) (gen : Int) (parts : List (Nat × Int × Int × Nat)) (other : Op) :
     State × Reply × Reply × Bool :=
   if v.c13Old then
     match loadGroup v s g with
